@@ -38,6 +38,29 @@ theorem Sim_const_inv {v e' : Expr} {c : Const} (h : Sim v e') (he : e' = .const
   case const c' => cases h; rfl
   all_goals (simp at h)
 
+theorem Sim_lam_inv {v e' : Expr} {ps : List String} {b : Expr} (h : Sim v e') (he : e' = .lam ps b) : v = .lam ps b := by
+  subst he
+  cases v <;> simp only [Sim] at h
+  case lam ps' b' => cases h; rfl
+  all_goals (simp at h)
+
+theorem SimL_single_lam_inv {fa : List Expr} {ps : List String} {b : Expr} (h : SimL fa [.lam ps b]) : fa = [.lam ps b] := by
+  cases fa with
+  | nil => simp [SimL] at h
+  | cons e rest =>
+    simp only [SimL] at h
+    obtain ⟨e', rest', heq, h1, h2⟩ := h
+    simp only [List.cons.injEq] at heq
+    obtain ⟨rfl, rfl⟩ := heq
+    cases rest with
+    | nil => rw [Sim_lam_inv h1 rfl]
+    | cons a r => simp [SimL] at h2
+
+theorem SimL_of_single_lam {fa' : List Expr} {ps : List String} {b : Expr} (h : SimL [.lam ps b] fa') : fa' = [.lam ps b] := by
+  simp only [SimL, Sim] at h
+  obtain ⟨e', rest, rfl, rfl, rfl⟩ := h
+  rfl
+
 theorem Sim_of_const {c : Const} {e' : Expr} (h : Sim (.const c) e') : e' = .const c := by simpa [Sim] using h
 
 theorem SimL_getElem?_isSome {es es' : List Expr} (h : SimL es es') (i : Nat) : (es'[i]?).isSome = (es[i]?).isSome := by
